@@ -243,12 +243,18 @@ def check(prop: str, tier: str) -> int:
     # ---- violations: confirm, shrink, write replay ------------------------------
     reported = []
     seen_classes = set()
+    class_counts = {}
+    for case, v in new_violations:
+        class_counts[vclass(v)] = class_counts.get(vclass(v), 0) + 1
+    for c, n in sorted(class_counts.items(), key=lambda kv: str(kv[0])):
+        print("violation class seen %d times: %s | %s" % (n, c[1], c[2]), flush=True)
+    max_reports = int(os.environ.get("VERIF_MAX_REPORTS", cfg.get("max_reports", 3)))
     for case, v in new_violations:
         c = vclass(v)
         if c in seen_classes:
             continue
         seen_classes.add(c)
-        if len(reported) >= int(cfg.get("max_reports", 3)):
+        if len(reported) >= max_reports:
             continue
         path = confirm_shrink_write(engine, prop, case, v, harness_msgs)
         if path:
